@@ -19,7 +19,7 @@ Compared per (class, line, context): match / isvalid / exception class, the clas
 dance, `ignore`; for a sample of lines every translated regex against the live compiled one
 (`match` and `m.end()`); for harvested statements the class CHOSEN by the real parser must be accepted
 by the model, and with analyze=True the text printed AFTER `analyze()` must be the model's text.
-Negative controls: five realistic changes of the real code and one of the model input must each alarm.
+Negative controls: seven realistic changes of the real code and one of the model input must each alarm.
 """
 import argparse
 import inspect
@@ -681,7 +681,7 @@ ZOO = [
     ("Data", "data a, b /1, 2/, c(1) /3*4.0/"), ("Data", "data a /1"), ("Data", "data"), ("Data", "data a / '/' /"),
     ("Equivalence", "equivalence (a, b(1)), (c, d)"), ("Equivalence", "equivalence (a, b),"), ("Equivalence", "equivalence (a, b) x"),
     ("Common", "common /blk/ a, b(3) /c/ d, // e"), ("Common", "common a, b"), ("Common", "common a /b/ c"), ("Common", "common /b/ c, d /"),
-    ("Common", "common // a"), ("Common", "common /b"),
+    ("Common", "common // a"), ("Common", "common /b"), ("Common", "common // a, b /c/ d"), ("Common", "common /c/ d // e // f, g / h / i"),
     ("Namelist", "namelist /nml/ a, b, /n2/ c"), ("Namelist", "namelist /nml/ a"), ("Namelist", "namelist a"), ("Namelist", "namelist /a"),
     ("Entry", "entry foo(a, b) result(r) bind(c, name='x y')"), ("Entry", "entry foo"), ("Entry", "entry foo() bind(c) result(r)"),
     ("Entry", "entry foo(a) junk"), ("Entry", "entry foo result(1x)"), ("Entry", "entry foo bind(c) bind(c)"), ("Entry", "entry foo(a"),
@@ -719,7 +719,8 @@ ZOO_LABELLED = [("Format", "format (1x, 'a,b', i3)", 10), ("Format", "format ()"
                 ("Where", "where (a > 0) b = c", 13), ("Forall", "forall (i=1:n) a(i) = 0", 7), ("Assignment", "x = 1", 12345), ("Else", "else", 5)]
 ZOO_PARENT = [("Integer", "integer f, g", "f", True), ("Integer", "integer g", "f", True), ("Else", "else nm", "nm", False), ("ElseIf", "else if (a) then nm", "nm", False),
               ("Case", "case (1) nm", "nm", False), ("Case", "case default nm", "nm", False), ("ElseWhere", "elsewhere (a) nm", "nm", False),
-              ("TypeIs", "type is (integer) nm", "nm", False), ("ClassIs", "class default nm", "nm", False), ("Real", "real(8) f", "f", True)]
+              ("TypeIs", "type is (integer) nm", "nm", False), ("ClassIs", "class default nm", "nm", False), ("Real", "real(8) f", "f", True),
+              ("Real", "real :: x, f, y(3)", "f", True), ("Character", "character(len=3) :: f, f", "f", True), ("Integer", "integer, save :: f = 1, f", "f", True)]
 
 MUT_CHARS = "(),:=/'* %<>-+\"1a_"
 
@@ -882,6 +883,10 @@ def negative_controls(m):
         expect_diff("printer drops PUBLIC/PRIVATE", "Integer", "integer, public :: a")
     with Patched(S.Where, "process_item", "newitem = self.item.copy(line, True)", "newitem = self.item.copy(line)"):
         expect_diff("WHERE body printed as placeholder", "Where", "where (a > 0) b(i+1) = c(i+2)")
+    with Patched(S.Common, "tofortran", "elif bits:", "elif False:"):
+        expect_diff("COMMON drops the slashes of a blank block", "Common", "common /c/ d, // e")
+    with Patched(T.TypeDeclarationStatement, "process_item", "if others:", "if False:"):
+        expect_diff("function typedecl drops the other entities", "Integer", "integer f, g", pname="f", pfn=True)
     # analyze() mutating attrspec: program level
     with Patched(T.TypeDeclarationStatement, "analyze", "attrspec = self.attrspec[:]", "attrspec = self.attrspec"):
         bad, st = [], {}
